@@ -18,6 +18,8 @@ mod c12;
 mod c13;
 mod c14;
 mod c17;
+mod c18;
+mod c19;
 
 use proto::Recorder;
 use std::path::PathBuf;
@@ -78,6 +80,8 @@ fn main() {
         "C14" => c14::run(&mut rec, &mut w, &tier, seed),
         "C13" => c13::run(&mut rec, &mut w, &tier, seed),
         "C11" => c11::run(&mut rec, &mut w, &tier, seed),
+        "C18" => c18::run(&mut rec, &mut w, &tier, seed),
+        "C19" => c19::run(&mut rec, &mut w, &tier, seed),
         "C02" => c02::run(&mut rec, &mut w, &tier, seed),
         "C03" => c03::run(&mut rec, &mut w, &tier, seed),
         "C04" => c04::run(&mut rec, &mut w, &tier, seed),
